@@ -544,7 +544,8 @@ def align_variable_names_with_convention(
         node
         for classdef in core.walk(ast_tree, ast.ClassDef)
         for stmt in classdef.body
-        for node in (stmt, *getattr(stmt, "targets", ()), getattr(stmt, "target", None))
+        for target in (stmt, *getattr(stmt, "targets", ()), getattr(stmt, "target", None))
+        for node in ([target] if target is stmt else ast.walk(target or stmt))
     }
     for name, node_substitutes in name_renamings.items():
         nodes = [node for node, _ in node_substitutes]
